@@ -592,6 +592,10 @@ func genPrint(t *rapid.T) PrintCase {
 	switch rapid.IntRange(0, 3).Draw(t, "nk") {
 	case 0:
 		n = rapid.SampledFrom(intVals).Draw(t, "int")
+		if rapid.IntRange(0, 3).Draw(t, "edge") == 0 {
+			// the ends of the signed 64-bit range: -2^63 is the last integer written as an integer, 2^63 the first written with OFMT
+			n = rapid.SampledFrom([]float64{9223372036854775808, -9223372036854775808, 9223372036854774784, -9223372036854777856, 18446744073709551616, 1e19, -1e19, 9007199254740993, 4611686018427387904}).Draw(t, "edgev")
+		}
 	case 1:
 		n = rapid.SampledFrom(fracVals).Draw(t, "frac")
 		if rapid.Bool().Draw(t, "neg") {
@@ -610,9 +614,6 @@ func runPrint(x *h.Ctx, c PrintCase) string {
 	var want string
 	if c.Num == math.Trunc(c.Num) && c.Num >= -9223372036854775808.0 && c.Num < 9223372036854775808.0 {
 		want = strconv.FormatInt(int64(c.Num), 10)
-	} else if math.Abs(c.Num) >= 9223372036854775808.0 {
-		x.Discard("integral beyond int64 (C05's business)")
-		return ""
 	} else {
 		var err error
 		want, err = libc.Format(c.OFMT, nil, cprintf.Double, c.Num)
